@@ -185,7 +185,7 @@ def judge_case(rep: Report, case: Case, idx, api, obs: Obs, files, opts) -> None
 
     def viol(clause: str, feat: str, detail: dict) -> None:
         rep.violation(
-            clause, f"{clause}:{owner}{'+docdefault' if '|docdefault:' in case.label else ('+names' if '|names:' in case.label else '')}:{feat}",
+            clause, f"{clause}:{owner}{'+docdefault' if '|docdefault:' in case.label else ('+names' if '|names:' in case.label else ('+dataclass' if '|dataclass:' in case.label else ('+noreceiver' if case.label.startswith('method-without-receiver') else '')))}:{feat}",
             {"case": case.label, "python": case.src, "stub_params": [(p.py_name, p.type.render() if p.type else None, render_expr(p.default) if p.default else None) for p in (sparams or [])], **detail},
             files={f"{PKG}/__init__.py": "", f"{PKG}/m.py": "_CONST = 3\n\n\n" + case.src}, src_rel=PKG, opts=opts, obs=None,
         )
@@ -289,6 +289,16 @@ def run(rep: Report, tier: str, seed: int) -> None:
         for names in (("__x",), ("__x", "y"), ("x", "__y"), ("_", "__")):
             ps = [P("PK", nm, "int", "1" if k == len(names) - 1 and len(names) > 1 else None, 1, True) for k, nm in enumerate(names)]
             cases.append(Case(len(cases), render_case(len(cases), owner, ps), (owner, ps), (), f"{owner}|names:{','.join(names)}"))
+    # ---- constructors generated from a dataclass, and methods whose first parameter is '*args' (no receiver to remove)
+    for nd in (0, 1, 2):
+        ps = [P("PK", f"p{k}", "int", "5" if k >= 2 - nd else None, 5, True) for k in range(2)]
+        cidx = len(cases)
+        body = "".join(f"    {p.name}: int" + (f" = {p.default}" if p.default else "") + "\n" for p in ps)
+        cases.append(Case(cidx, f"@dataclass\nclass C{cidx}:\n{body}", ("ctor", ps), ("from dataclasses import dataclass",), f"ctor|dataclass:{nd}-defaults"))
+    for kinds in (("VA",), ("VA", "KO")):
+        cidx = len(cases)
+        ps = make_params(kinds, {1} if len(kinds) > 1 else set(), set(range(len(kinds))), None, "func")
+        cases.append(Case(cidx, f"class C{cidx}:\n    def f{cidx}({render_sig(ps)}) -> None:\n        return None\n", ("static_self", ps), (), f"method-without-receiver|{','.join(kinds)}"))
     per_group = 2500
     groups = [(cases[i : i + per_group], Opts()) for i in range(0, len(cases), per_group)]
     # ---- defaults mentioned in DOCSTRINGS must not change what Python says (structured styles, CODE preference)
